@@ -149,4 +149,6 @@ Example C17_nonvacuous :
    | Err _ => False end) /\
   (* round trip hypothesis is satisfiable *)
   good_config (init pl0).
-Proof. repeat split; try reflexivity; try (vm_compute; split; reflexivity); try (apply good_init; discriminate). Qed.
+Proof.
+  do 7 (split; [reflexivity|]). split; [vm_compute; split; reflexivity|]. apply good_init. discriminate.
+Qed.
